@@ -32,6 +32,7 @@ TOL_KURT = 0.05
 TAIL_FACTOR = 3.0  # allowance tol_k + 3 T_k, T_k = k-th absolute central moment carried outside the declared range
 
 FRACTIONS = [0.1, 0.5, 0.68, 0.95]
+FRACTIONS_THOROUGH = [0.02, 0.05, 0.1, 0.3, 0.5, 0.68, 0.9, 0.95, 0.99]
 GRID_NODES = 40001
 REACH_SD = 12.0
 SCALES = [1.0, 1e-6, 1e6]
@@ -301,25 +302,33 @@ def run(ck):
     seed, quick = ck.seed, ck.quick
     stride = [None, 7, 11, 13][seed % 4]
     fams = {"GaussianKDE": ["normal", "gamma3", "t6", "bimodal-c19"], "UnimodalPdf": ["normal", "gamma3", "t6"]}
+    scales, locs, fractions, sizes = SCALES, LOCS, FRACTIONS, (300, 3000)
+    if not quick:
+        for v in fams.values():
+            v += ["logistic", "gamma9", "expgauss"]
+        scales, locs, fractions, sizes = SCALES + [1e-3, 1e3], LOCS + [-1e6, 100.0], FRACTIONS_THOROUGH, (300, 1000, 3000)
     cases = []
     for cls_name in ("GaussianKDE", "UnimodalPdf"):
         for fam in fams[cls_name]:
-            for n in (300, 3000):
-                for scale in SCALES:
-                    cases.append({"cls": cls_name, "family": fam, "n": n, "scale": scale, "locs": LOCS, "fractions": FRACTIONS, "stride": stride})
+            for n in sizes:
+                for scale in scales:
+                    cases.append({"cls": cls_name, "family": fam, "n": n, "scale": scale, "locs": locs, "fractions": fractions, "stride": stride})
     # tens of thousands of points: every scale in the thorough tier, one (rotating with the seed) in the quick tier
     for ci, cls_name in enumerate(("GaussianKDE", "UnimodalPdf")):
         for fi, fam in enumerate(fams[cls_name]):
-            for si, scale in enumerate(SCALES):
-                if quick and si != (seed + ci + fi) % len(SCALES):
+            for si, scale in enumerate(scales):
+                if quick and si != (seed + ci + fi) % len(scales):
                     continue
-                cases.append({"cls": cls_name, "family": fam, "n": 20000, "scale": scale, "locs": LOCS, "fractions": FRACTIONS, "stride": stride})
-    cases.sort(key=lambda c: -c["n"] * len(c["locs"]))
-    ck.run_cases("block", cases, chunk=1)
+                cases.append({"cls": cls_name, "family": fam, "n": 20000, "scale": scale, "locs": locs, "fractions": fractions, "stride": stride})
+    # the smallest samples first (the first counter-example reported for a key is then the smallest one);
+    # the remaining blocks heaviest first so that the pool stays busy
+    ck.run_cases("block", [c for c in cases if c["n"] == 300], chunk=1)
+    ck.run_cases("block", sorted([c for c in cases if c["n"] != 300], key=lambda c: -c["n"]), chunk=1)
     ck.rule = (
-        "quantile samples {normal, gamma(3), t6; bimodal for the KDE} x n in {300, 3000, 20000%s} x scale {1e-6,1,1e6} x location {0,1e4,-3e3,1e6} sd "
-        "x fractions {.1,.5,.68,.95}; each problem: own-density oracles on a 40001-node centred grid, and covariance against the base "
-        "problem (scale 1, location 0). Distinct = (estimator, family, n, scale, location)." % (" (one scale per estimator and family, rotating with the seed)" if quick else "")
+        "quantile samples %s (bimodal for the KDE only) x n in %s + 20000%s x scale %s x location %s sd x fractions %s; each problem: own-density "
+        "oracles on a 40001-node centred grid, and covariance against the base problem (scale 1, location 0). "
+        "Distinct = (estimator, family, n, scale, location)."
+        % (fams["GaussianKDE"], list(sizes), " (one scale per estimator and family, rotating with the seed)" if quick else "", scales, locs, fractions)
     )
     ck.assume("'any reasonable sample' = the listed deterministic quantile samples (deterministically permuted), n <= 20000")
     ck.assume("conventions for the approximate clauses as in DESIGN.md C19 (normalisation 1e-3, cdf pairs 1e-3 / absolute 3e-3, interval mass 2e-3, end densities 1% of the peak, mode 1e-3, moments 1e-3 sd / 0.5% / 0.02 / 0.05 plus 3x the moment carried outside the declared range)")
